@@ -76,6 +76,10 @@ func mkErr(e errSpec, salt int) error {
 		return context.DeadlineExceeded
 	case "ok-status-error":
 		return okStatusErr{}
+	case "io-eof":
+		return io.EOF // e.g. a handler doing `return err` on stream.Recv() after the half-close
+	case "wrapped-io-eof":
+		return fmt.Errorf("reading request %d: %w", salt, io.EOF)
 	}
 	return nil
 }
@@ -133,7 +137,7 @@ func checkStatus(e errSpec, herr error, observed error) (ok bool, why string) {
 				return false, fmt.Sprintf("detail %d differs", i)
 			}
 		}
-	case "plain", "ctx-canceled", "ctx-deadline":
+	case "plain", "ctx-canceled", "ctx-deadline", "io-eof", "wrapped-io-eof":
 		if !strings.Contains(got.Message(), herr.Error()) {
 			return false, fmt.Sprintf("message %q does not carry the error text %q", trunc(got.Message()), trunc(herr.Error()))
 		}
@@ -183,6 +187,12 @@ func c03Gen(tier string, seed int64, idx int) c03Case {
 		c.Late = 1 + r.Intn(4)
 		c.RaceErr = errSpec{Kind: "status", Code: 1 + r.Intn(16), MsgCls: "plain", Details: r.Intn(3)}
 		return c
+	case 5:
+		c.Family = "loss-after-trailer"
+		c.RaceKind = []string{"server", "bidi"}[r.Intn(2)]
+		c.RaceErr = errSpec{Kind: "status", Code: 1 + r.Intn(16), MsgCls: []string{"plain", "unicode"}[r.Intn(2)], Details: r.Intn(3)}
+		c.Late = 1 // one message before failing: message + trailer fit the client's queues while the caller is slow
+		return c
 	case 7:
 		c.Family = "foreign"
 		c.Foreign = c03Foreign[(idx/8)%len(c03Foreign)]
@@ -190,12 +200,12 @@ func c03Gen(tier string, seed int64, idx int) c03Case {
 	}
 	c.Family = "matrix"
 	kinds := []string{"unary", "client", "server", "bidi"}
-	ekinds := []string{"status", "status", "status", "wrapped", "plain", "ctx-canceled", "ctx-deadline", "ok-status-error", "nil"}
+	ekinds := []string{"status", "status", "status", "wrapped", "plain", "ctx-canceled", "ctx-deadline", "ok-status-error", "nil", "io-eof", "wrapped-io-eof"}
 	for i := 0; i < per; i++ {
 		n := idx*per + i
 		rp := c03RPC{Kind: kinds[n%4]}
 		rp.Err.Kind = ekinds[(n/4)%len(ekinds)]
-		rp.Err.Code = 1 + (n/36)%16 // all 16 non-OK codes
+		rp.Err.Code = 1 + (n/44)%16 // all 16 non-OK codes
 		rp.Err.MsgCls = []string{"plain", "empty", "unicode", "long"}[r.Intn(4)]
 		rp.Err.Details = r.Intn(4)
 		rp.Position = []string{"before", "between", "after"}[r.Intn(3)]
@@ -215,8 +225,65 @@ func c03Run(tier string, seed int64, idx int) *core.Result {
 		c03Race(tier, seed, idx, c, res)
 	case "foreign":
 		c03ForeignRun(tier, seed, idx, c, res)
+	case "loss-after-trailer":
+		c03LossAfterTrailer(tier, seed, idx, c, res)
 	}
 	return res
+}
+
+// c03LossAfterTrailer: the handler sends messages and fails with a status; the caller is slow and
+// starts receiving only after the complete response (trailer included) has been read from the
+// transport AND the transport has then failed. It must still observe the messages and the
+// handler's status (its complete response had been delivered).
+func c03LossAfterTrailer(tier string, seed int64, idx int, c c03Case, res *core.Result) {
+	h := bed.NewHooks()
+	h.Install()
+	b := bed.New(bed.Opts{Serialise: c.Ser})
+	cc := b.Conns[0]
+	gates := NewGates()
+	tag := fmt.Sprintf("lat%d", idx)
+	herr := mkErr(c.RaceErr, idx)
+	hrec := &SideRec{}
+	hops := []Op{{Op: "send", N: c.Late, Size: 17}, {Op: "ret", Err: herr}}
+	if c.RaceKind == "server" {
+		hops = append([]Op{{Op: "recv", N: 1}}, hops...)
+	}
+	b.Impl.SetStream(tag, func(t, k string, ss grpc.ServerStream) error { return runHandlerProg(ss, t, hops, hrec, gates) })
+	// the client's read fails once the whole response (c.Late bodies + trailer) has been read
+	b.Links[0].A.FailReadAfter(c.Late + 1)
+	b.Links[0].A.SetOnRead(func(n int) {
+		if n >= c.Late+1 {
+			b.Links[0].A.Discard()
+		}
+	})
+	cops := []Op{{Op: "gate", Gate: "connection-lost"}, {Op: "recvAll"}}
+	cr := StartClient(context.Background(), func() {}, nil, cc, c.RaceKind, tag, []byte("q"), cops, nil, gates, nil, nil)
+	st, _ := settle(tier, func() bool { return readErrSet(cc) })
+	if st != "ok" {
+		res.Verdict, res.Note = core.Inconclusive, "transport failure not reached: "+st
+		gates.OpenAll()
+		finish(tier, b, h, res)
+		return
+	}
+	quiet(tier)
+	gates.Open("connection-lost")
+	st, snap := settle(tier, cr.IsDone)
+	if st == "stuck" {
+		res.ViolateD("call-never-returns", map[string]any{"goat_goroutines": goatParked(snap)}, "caller never returned after its complete response was delivered and the connection was lost")
+	} else if st == "timeout" {
+		res.Verdict, res.Note = core.Inconclusive, "watchdog"
+	} else {
+		observed := callerOutcome(cr.Rec)
+		if ok, why := seqEqual(cr.Rec.Recvd, hrec.Sent); !ok {
+			res.Violate("messages-lost-with-connection-after-complete-response", "response was completely delivered before the connection failed, but the caller received a different sequence: %s", why)
+		}
+		if ok, why := checkStatus(c.RaceErr, herr, observed); !ok {
+			res.Violate("status-lost-with-connection-after-complete-response/"+c.RaceKind, "handler failed with code %d after %d messages; trailer delivered, then the connection failed, then the caller received: %s", c.RaceErr.Code, c.Late, why)
+		}
+		res.Stat("loss_after_trailer_cases", 1)
+	}
+	res.Stat("rpcs", 1)
+	finish(tier, b, h, res)
 }
 
 func c03Matrix(tier string, seed int64, idx int, c c03Case, res *core.Result) {
@@ -534,11 +601,11 @@ func init() {
 	core.Register(&core.Prop{
 		ID:    "C03",
 		Level: "exploration",
-		Rule:  "cases: (matrix) 24 RPCs per case cycling 4 RPC kinds x 9 error kinds (status x3, wrapped status, plain, context canceled/deadline, error whose GRPCStatus says OK, nil) x all 16 non-OK codes x message class {plain, empty, Unicode, 4 KiB} x 0..3 Any details x position {before any message, between, after the last}, unary also with a body alongside the error; (race) handler fails while the caller still sends, the trailer held in the server writer by a rendezvous hook while 1..4 late bodies arrive; (foreign) 9 reply shapes from a scripted peer (explicit OK + body, status without metadata, resets with/without trailer / after a body). Every case is non-trivial; distinct = distinct descriptors.",
+		Rule:  "cases: (matrix) 24 RPCs per case cycling 4 RPC kinds x 11 error kinds (status x3, wrapped status, plain, context canceled/deadline, error whose GRPCStatus says OK, nil, io.EOF, wrapped io.EOF) x all 16 non-OK codes x message class {plain, empty, Unicode, 4 KiB} x 0..3 Any details x position {before any message, between, after the last}, unary also with a body alongside the error; (race) handler fails while the caller still sends, the trailer held in the server writer by a rendezvous hook while 1..4 late bodies arrive; (loss-after-trailer) the handler sends one message and fails; the caller starts receiving only after the complete response was read and the transport then failed: it must still see the messages and the status; (foreign) 9 reply shapes from a scripted peer (explicit OK + body, status without metadata, resets with/without trailer / after a body). Every case is non-trivial; distinct = distinct descriptors.",
 		Plan:  func(tier string, seed int64) int { return tierN(tier, 144, 4800) },
 		Run:   c03Run,
 		RequiredStats: func(string) []string {
-			return []string{"trailer_held_in_writer", "foreign_cases", "rpcs"}
+			return []string{"trailer_held_in_writer", "foreign_cases", "rpcs", "loss_after_trailer_cases"}
 		},
 	})
 }
